@@ -16,6 +16,9 @@ pub enum HKind {
     UnknownObject,
     UnknownQualifier,
     Truncated,
+    /// (READ only) 66 well-formed, readable headers: more than the 64 the outstation promises to process
+    /// ("Requesting more than this number will result in the PARAMETER_ERROR IIN bit being set in the response")
+    Many,
 }
 
 #[derive(Clone, Debug, Serialize, Deserialize)]
@@ -156,6 +159,20 @@ fn build_header(func_code: u8, h: &HSpec) -> (Vec<u8>, HKind) {
             Some(b) => (b, HKind::WrongForFunction),
             None => (vec![], HKind::Acceptable),
         },
+        HKind::Many => {
+            if func_code == func::READ {
+                let mut b = vec![];
+                for k in 0..66u8 {
+                    b.extend(ra::h_range8(1, 2, k % 6, k % 6, &[]));
+                }
+                (b, HKind::Many)
+            } else {
+                match acceptable(func_code, h.pick, h.n) {
+                    Some(b) => (b, HKind::Acceptable),
+                    None => (vec![], HKind::Acceptable),
+                }
+            }
+        }
         HKind::UnknownObject => {
             let gv: [(u8, u8); 6] = [(5, 1), (99, 0), (1, 9), (30, 77), (255, 255), (60, 9)];
             let (g, v) = gv[h.pick as usize % gv.len()];
@@ -221,6 +238,7 @@ impl Prop for Replies {
             1 => Just(HKind::UnknownObject),
             1 => Just(HKind::UnknownQualifier),
             1 => Just(HKind::Truncated),
+            1 => Just(HKind::Many),
         ];
         let hspec = (kind, any::<u8>(), prop_oneof![4 => 1u8..4, 1 => 1u8..=120])
             .prop_map(|(kind, pick, n)| HSpec { kind, pick, n });
@@ -662,7 +680,7 @@ async fn run_case(case: &Case) -> CaseOut {
         let well_formed = flags_ok
             && kinds
                 .iter()
-                .all(|k| matches!(k, HKind::Acceptable | HKind::WrongForFunction));
+                .all(|k| matches!(k, HKind::Acceptable | HKind::WrongForFunction | HKind::Many));
         if no_reply_func && well_formed && bad_headers > 0 {
             ck.out.label("no_reply_function_with_unusable_objects");
         }
